@@ -62,6 +62,13 @@ class PC(ASTNode):
 CLS = {"PA": PA, "PB": PB, "PC": PC}
 
 
+class LoudStr(str):
+    """A str subclass whose str() differs from its characters (what members of `class Op(str, Enum)` are)."""
+
+    def __str__(self):
+        return "Op." + str.__str__(self).upper()
+
+
 def pool():
     """Real nodes.  Tuples of length 0..4, twins with different origins, nested parents."""
     NODE_REGISTRY.clear()
@@ -85,7 +92,9 @@ def pool():
            PB("p", items=(PA("x", o=PA("a", items=(PC("a"),))),)),
            PA("ab", n="ab"), PC("ab"), PA("a b"), PA("a  b"), PC("a  b"), PA("7x"), PA('a"'), PA('"'), PA("\\d1"), PC("a\\"), PA("a\\b"),
            PA("w", items=tuple(PA(str(i)) for i in range(10))), PA("w", items=tuple(PA(str(i)) for i in range(11))),
-           PA("w", items=tuple(PB(str(i)) if i != 10 else PC("c") for i in range(11))), PA("w", items=tuple(PA(str(i)) for i in range(12)))]
+           PA("w", items=tuple(PB(str(i)) if i != 10 else PC("c") for i in range(11))), PA("w", items=tuple(PA(str(i)) for i in range(12))),
+           # property values whose str() is not what they look like: a quoted regex is matched against str(value)
+           PA(LoudStr("a")), PC(LoudStr("ab")), PA("a", n=LoudStr("a"))]
     return out
 
 
